@@ -87,17 +87,16 @@ def collapsedBox : Attrs :=
   let bg := boxBackground false ⟨.collapse, some 4, 0⟩
   { plain 1 .BlockBox with visible := false, bg := bg, border := some 6, borderSides := 4 }
 
-/-- Known finding `collapse-paints-background`: `<p style="visibility:collapse; background:…">`.  CSS 2.1
-11.2 gives `collapse` the meaning of `hidden` on everything but table rows / columns (and there the box is
-removed), so no background is due; `layout_box_backgrounds` keeps it (its test is `== 'hidden'`), while the
-border and the text of the same box are skipped (`drawBorder` / `drawText` test `visible`): the box paints
-its background only. -/
-theorem collapse_keeps_background :
-    boxBackground false ⟨.collapse, some 4, 0⟩ = some (some 4) ∧
+/-- Regression (was the witness `collapse_keeps_background` of finding `collapse-paints-background`,
+repaired by af29a5d: `layout_box_backgrounds` tests `visibility != 'visible'`): the collapsed box of
+`<p style="visibility:collapse; background:…; border:…">` has no background after layout, as a hidden one,
+and paints nothing of its own. -/
+theorem collapse_paints_no_background :
+    boxBackground false ⟨.collapse, some 4, 0⟩ = none ∧
     boxBackground false ⟨.hidden, some 4, 0⟩ = none ∧
-    decoration collapsedBox {} = [.paint .bg 1 4 { clips := [.bgBoxes .bg 1, .bgArea .bg 1] }] := by
+    decoration collapsedBox {} = [] := by
   refine ⟨by decide, by decide, ?_⟩
-  simp [collapsedBox, decoration, drawBackground, drawBorder, plain, boxBackground, StyleBg.hidden, Env.clip]
+  simp [collapsedBox, decoration, drawBackground, drawBorder, plain, boxBackground, StyleBg.hidden]
 
 /-- Known finding `row-group-background-first-row-only`: `<tbody style="background:…">` with two rows of one
 30 × 20 cell each, at y = 10 and y = 30 (the group is 40 high).  The painting area is (10, 10, 30, 20) — as
